@@ -38,7 +38,7 @@ def gen(rng, tier, idx):
     return dict(P=max(g[0] * g[1] for g in grids), ckw=ckw, grids=grids,
                 storage=rng.choice(['complex128', 'float64']), fn=rng.choice(['pert', 'pert', 'rho']),
                 data=rng.choice(['random', 'random', 'equilibrium', 'combo', 'scaled']),
-                dseed=rng.randrange(1 << 30), sched=sched)
+                dseed=rng.randrange(1 << 30), second_finder=rng.random() < 0.4, sched=sched)
 
 
 def make_field(case, eta, cdict):
@@ -79,6 +79,17 @@ def run(case, tape=None):
                        dtype=cm.np_dtype(case['storage']))
             cm.poison(rho.getAllData())
             df = DensityFinder(6, f.getSpline(3), f.eta_grid, constants)
+            if case.get('second_finder'):
+                # another finder on the same v spline (e.g. one per density grid): neither may disturb the other
+                rho2 = Grid(f.eta_grid[:3], f.getSpline(slice(0, 3)), rem, 'v_parallel_2d', comm, dtype=np.complex128)
+                df2 = DensityFinder(6, f.getSpline(3), f.eta_grid, constants)
+                df2.getRho(f, rho2)
+                first = np.array(np.real(rho2.getAllData()), copy=True)
+                df.getRho(f, rho2)
+                if not (phys.relerr(np.real(rho2.getAllData()), first) <= 1e-13):
+                    raise OracleFail('finders-disagree', dict(rank=rank, relerr=phys.relerr(np.real(rho2.getAllData()), first)))
+                if case['dseed'] % 2:
+                    df = df2
             if case['fn'] == 'pert':
                 df.getPerturbedRho(f, rho)
             else:
@@ -109,6 +120,8 @@ def run(case, tape=None):
         if res['status'] != 'ok':
             break
     probes = {'fn_' + case['fn']: 1, 'data_' + case['data']: 1, 'storage_' + case['storage']: 1}
+    if case.get('second_finder'):
+        probes['two_finders_on_one_spline'] = 1
     return M.finish(extra=dict(nontrivial=case['P'] > 1, probes=probes))
 
 
